@@ -53,3 +53,16 @@ class XsProp(Prop):
 
     def nontrivial(self, line):
         return len(line) > 40
+
+    ZEROS = ('R0000000000000000', 'R8000000000000000')
+
+    def same_case(self, case, impl, mirror):
+        """implementation vs mirror.  min / max of zeros of opposite sign: IEEE 754 minNum / maxNum (and Rust's f64::min / max)
+        allow either zero; the model's instance and the hardware may pick different ones, so for a case that applies min or max
+        to operands among which both zeros occur the sign of a zero result is not compared"""
+        if self.same(impl, mirror):
+            return True
+        srcs = src_of(case) or []
+        if any(w in ('min', 'max') for x in srcs for w in x.split()) and all(z in case for z in self.ZEROS):
+            return self.same(impl.replace(self.ZEROS[1], self.ZEROS[0]), mirror.replace(self.ZEROS[1], self.ZEROS[0]))
+        return False
